@@ -44,6 +44,8 @@ type envTarEntry struct {
 	Mode     int64
 	Mtime    int64
 	Body     string
+	Atime    int64 // access time recorded in the header (PAX record), 0 = none
+	Size     int64 // output only: the size recorded in the entry's header
 }
 
 var envChrooted bool
@@ -319,6 +321,9 @@ func envTarReader(entries []envTarEntry, truncated bool) io.Reader {
 			pax += paxRec("linkpath", link)
 			link = link[:100]
 		}
+		if e.Atime != 0 {
+			pax += paxRec("atime", fmt.Sprintf("%d", e.Atime))
+		}
 		if pax != "" {
 			block("PaxHeaders.0/x", "", tar.TypeXHeader, 0644, 0, len(pax))
 			data(pax)
@@ -414,7 +419,7 @@ func envTarWrittenBy(i int) []envTarEntry {
 			break
 		}
 		b, _ := io.ReadAll(tr)
-		out = append(out, envTarEntry{Name: h.Name, Linkname: h.Linkname, Typeflag: h.Typeflag, Mode: h.Mode, Mtime: h.ModTime.Unix(), Body: string(b)})
+		out = append(out, envTarEntry{Name: h.Name, Linkname: h.Linkname, Typeflag: h.Typeflag, Mode: h.Mode, Mtime: h.ModTime.Unix(), Body: string(b), Size: h.Size})
 	}
 	return out
 }
